@@ -10,6 +10,7 @@ C01 driver.  Ops:
 * `mutf8 x<bytes>`                     -> `ok #<code points>` | `err e`
 * `oracle-read-expected x<bytes> <class>`   the fidelity statement on a generated class: reading the bytes and
   resolving labels gives exactly the description the class file was assembled from -> `ok pass` | `ok (fail _)`
+* `oracle-parameter-annotations x<bytes> <n>`   known finding: parameter annotations are consumed, never delivered
 * `oracle-read-parse x<bytes>`         (implementation side: independent parse of the same bytes; model side: the
   model's own read) -> `ok pass` | `ok out-of-domain` when the bytes are not a readable class
 -/
@@ -44,6 +45,14 @@ def handleC01 (op : String) (args : List Sexp) : Option Ans :=
          | none => .ok (list [tag "fail", tag "dangling"]))
       | .err => .ok (list [tag "fail", tag "err"])
       | .crash _ => .ok (list [tag "fail", tag "panic"]))
+  | "oracle-parameter-annotations", [b, n] => do
+    -- `n` = number of Runtime(In)VisibleParameterAnnotations attributes the class file states; the description has no
+    -- place for them (`ClassRead.readMethodAttr` skips them), so 0 of `n` are delivered
+    let b ← toBytes? b
+    let n ← toNat? n
+    pure (match ClassRead.read b with
+      | .ok _ => if n == 0 then .ok (tag "pass") else .ok (list [tag "fail", tag "dropped"])
+      | _ => .ok (list [tag "fail", tag "err"]))
   | "oracle-read-parse", [b] => do
     let b ← toBytes? b
     pure (match ClassRead.read b with
